@@ -122,6 +122,9 @@ def coercer_str_len(cls, data):
 def a_validator(self: A):
     if self.some_field == 13:
         raise ValidationError("thirteen")
+def a_field_validator(self: A):
+    if self.some_field == 14:
+        raise ValidationError("fourteen")
 def a_serialized(self: A) -> int:
     return self.some_field + 100
 
@@ -188,6 +191,7 @@ OPS = {
     "order_a": lambda: order(["n", "other", "some_field"])(A),
     "order_a_map": lambda: order({"other": order(-1)})(A),
     "validator_a": lambda: validator(owner=A)(a_validator),
+    "field_validator_a": lambda: validator("some_field", owner=A)(a_field_validator),
     "dependent_required_a": lambda: dependent_required({"other": ["n"]}, owner=A),
     "serialized_a": lambda: serialized(owner=A)(a_serialized),
     "serialized_a_alias": lambda: serialized("aliased_method", owner=A)(a_serialized),
@@ -213,6 +217,9 @@ OBS = {
     "de_a_upper": lambda: deserialize(A, {"SOME_FIELD": 2, "N": 2}),
     "de_a_invalid": lambda: deserialize(A, {"some_field": "1", "zz": 1, "n": -5}),
     "de_a_13": lambda: deserialize(A, {"some_field": 13, "other": None}),
+    "de_a_14": lambda: deserialize(A, {"some_field": 14}),
+    "de_a_14_upper": lambda: deserialize(A, {"SOME_FIELD": 14}),
+    "de_a_14_camel": lambda: deserialize(A, {"someField": 14}),
     "de_a_other_only": lambda: deserialize(A, {"other": "o"}),
     "ser_a": lambda: serialize(A, A(1, None, N(1))),
     "ser_a_default": lambda: serialize(A, A()),
@@ -404,10 +411,29 @@ def enumerate_cases(tier):
         for a, b_ in itertools.product(names, repeat=2):
             yield {"ops": [a, b_]}
     else:
-        # a deterministic slice of the pairs in the quick tier
-        for i, (a, b_) in enumerate(itertools.product(names, repeat=2)):
-            if i % 37 == 0:
+        # quick tier: every ordered pair of operations that configure the same pool type (an observation made after the
+        # first can be made stale by the second), and a deterministic slice of the other pairs
+        done = set()
+        for g in ("A", "W", "N", "Leaf"):
+            grp = [x for x in names if op_group(x) == g]
+            for a, b_ in itertools.permutations(grp, 2):
+                done.add((a, b_))
                 yield {"ops": [a, b_]}
+        for i, (a, b_) in enumerate(itertools.product(names, repeat=2)):
+            if i % 37 == 0 and (a, b_) not in done:
+                yield {"ops": [a, b_]}
+
+
+def op_group(name: str) -> str:
+    if "leaf" in name:
+        return "Leaf"
+    if name.endswith("_w") or name in ("deserializer_int", "deserializer_str", "serializer_int", "serializer_str"):
+        return "W"
+    if name.endswith("_n") or "_n_" in name:
+        return "N"
+    if name.endswith("_a") or "_a_" in name:
+        return "A"
+    return "G"
 
 
 def strategy(tier):
